@@ -231,10 +231,29 @@ Theorem C10_source_record_sources :
 Proof. exact gen_sources_are_expected. Qed.
 Print Assumptions C10_source_record_sources.
 
+(** the buffers PhaseSpace hands over have the shape of the dataset's records: for every append call whose
+    source is a PhaseSpace member, the extents of that member (from PhaseSpace's constructor, Gen_Moments.v)
+    minus the subscripted leading dimensions are the model's [mem_inner] and the inner dimensions the
+    HDF5File constructor gave the dataset (so C10_dataset_rows_are_bunches applies with equal strides) *)
+From Inovesa Require Import Model.MomentsIR Gen.Gen_Moments Proofs.H5MemP.
+Theorem C10_source_memory_shapes :
+  forall z d s n sh, In (d, s, n) all_append_tables -> ps_buffer_shape z s = Some sh ->
+    sh = mem_inner z d /\
+    sh = tl (gen_ds_dims true true (s_nb z) (s_n z) (s_n z) (s_nmax z) (s_imp z) (s_np z) d).
+Proof. exact gen_memory_shapes. Qed.
+Print Assumptions C10_source_memory_shapes.
+
+(** ... and cell (b,x,y) of the grid sits at flat position (b*n + x)*n + y (bunch-major, row-major) *)
+Theorem C10_source_data_is_bunch_major :
+  forall nb n b x y, gidx 0 (gen_extents_data nb n n) [b; x; y] [1; 1; 1] = [(b * n + x) * n + y].
+Proof. exact gen_data_is_bunch_major. Qed.
+Print Assumptions C10_source_data_is_bunch_major.
+
 (** non-vacuity: two records of a 2x3 dataset, a third appended through the generated vectors *)
 Example C10_source_example :
   gen_append_call 0 [2; 2; 3] 1 [7; 8; 9; 10; 11; 12; 99] [1; 1; 1; 1; 1; 1; 2; 2; 2; 2; 2; 2]
   = [1; 1; 1; 1; 1; 1; 2; 2; 2; 2; 2; 2; 7; 8; 9; 10; 11; 12] /\
   gen_ad_start [2; 2; 3] 1 = [2; 0; 0] /\ gen_ad_count [2; 2; 3] 1 = [1; 2; 3] /\ gen_ad_extent [2; 2; 3] 1 = [3; 2; 3] /\
-  In (DEProfile, SrcProj 1, 1) all_append_tables.
+  In (DEProfile, SrcProj 1, 1) all_append_tables /\
+  ps_buffer_shape (mkSizes 3 16 64 32 0) (SrcProj 1) = Some [3; 16].
 Proof. vm_compute. repeat split. tauto. Qed.
